@@ -1,7 +1,7 @@
 """Regenerates MANIFEST.json (single source: this file)."""
 import json, os
 V = os.path.dirname(os.path.dirname(os.path.abspath(__file__)))
-BUILT = os.environ.get('BUILT', 'C01,C11,C16').split(',')
+BUILT = os.environ.get('BUILT', 'C01,C02,C08,C09,C11,C14,C16,C20').split(',')
 NA = {
  'C03': 'pure function of the multiset of processed traces (Pearson r / difference of means): no schedule, clock, I/O or fault for a simulator to decide; the history-dependent part of CPA/DPA is claimed under C01/C16',
  'C04': 'ANOVA/NICV/SNR formulas are pure numpy on the accumulators; what is schedule-dependent there (which kernel filled them, with how many workers) is claimed under C11',
